@@ -58,6 +58,15 @@ CleanupOnlyUnowned(self, before, after, own) ==
     /\ after \subseteq before
     /\ \A x \in before \ after : self \notin own[<<x[1], x[4]>>]
 
+\* a node after a completed resize on real servers. before/after: its fragments before the
+\* resize started / after everybody is NORMAL again; all: the fragments that existed anywhere
+\* in the cluster before; own: owners after the resize. What disappeared from the node is
+\* unowned, and what the node owns it has: the plan named it a source for everything it newly
+\* owns and cleanup did not take it away again.
+ResizedOK(self, before, after, all, own) ==
+    /\ \A x \in before \ after : self \notin own[<<x[1], x[4]>>]
+    /\ \A x \in all : self \in own[<<x[1], x[4]>>] => x \in after
+
 \* --------------------------------------------------------------------------
 \* (M) the predicates are satisfiable exactly when they should be: over a small
 \* universe, a plan that is complete and valid exists iff no needed shard lacks a source
